@@ -30,8 +30,9 @@ class Hooks(object):
 class PoolRun(object):
     """One execution of the real pool: clients (thr 101, 102), workers (thr 1..NW), observer (thr 200)."""
 
-    def __init__(self, mx, mn, ntasks, gated, raising, nclients):
+    def __init__(self, mx, mn, ntasks, gated, raising, nclients, qcap=0):
         self.mx, self.mn, self.nt, self.gated, self.raising, self.nc = mx, mn, ntasks, set(gated), set(raising), nclients
+        self.qcap = qcap
         S = self.S = detsched.Sched()
         H = self.H = Hooks()
         self.alive = set()
@@ -56,7 +57,7 @@ class PoolRun(object):
         th, qm = detsched.make_shims(S, H)
         self.tp = detsched.load_module_with_shims("jsonrpclib.threadpool", th, qm)
         H.srcfile = self.tp.__file__
-        self.pool = self.tp.ThreadPool(mx, mn, logname="P")
+        self.pool = self.tp.ThreadPool(mx, mn, queue_size=qcap, logname="P")
         self.sentinel = self.pool._done_event
         self.plock = getattr(self.pool, "_ThreadPool__lock", None)
         S.snap = self.snap
@@ -182,10 +183,17 @@ class PoolRun(object):
             res = "true" if pool.join() else "false"
         elif op[0] == "joint":
             res = "true" if pool.join(5) else "false"
+        elif op[0] == "joint0":
+            res = "true" if pool.join(0) else "false"
         elif op[0] == "clear":
             pool.clear()
         elif op[0] == "enq":
-            self.futures[op[1]] = pool.enqueue(self.task, op[1])
+            try:
+                self.futures[op[1]] = pool.enqueue(self.task, op[1])
+            except Exception as e:  # noqa
+                if type(e).__name__ != "Full":
+                    raise
+                res = "full"          # bounded queue: not accepted
         elif op[0] == "release":
             S.yield_(("release_gate",))
             self.released.add(op[1])
@@ -195,7 +203,7 @@ class PoolRun(object):
         self.cop[c] = None
 
     def avail_ops(self, c):
-        ops = [["join"], ["joint"]]
+        ops = [["join"], ["joint"], ["joint0"]]
         if c == 1:
             ops += [["start"], ["stop"], ["clear"]]
             ops += [["release", t] for t in sorted(self.gated) if t not in self.released]
@@ -223,7 +231,7 @@ class PoolRun(object):
 
     def header(self, **kw):
         h = {"cfg": {"maxT": self.mx, "minT": self.mn, "nc": self.nc, "nt": self.nt,
-                     "gated": sorted(self.gated), "raising": sorted(self.raising)}}
+                     "gated": sorted(self.gated), "raising": sorted(self.raising), "qcap": self.qcap}}
         h.update(kw)
         return h
 
@@ -268,7 +276,8 @@ def random_trace(seed, maxmax=2, ntasks=3, nclients=1, observer=True, extend=0, 
     mn = rnd.randint(0, mx)
     gated = [t for t in range(1, ntasks + 1) if rnd.random() < 0.5]
     raising = [t for t in range(1, ntasks + 1) if rnd.random() < 0.25]
-    R = PoolRun(mx, mn, ntasks + 3, gated, raising, nclients)
+    qcap = rnd.choice([0, 0, 0, 1, 2])
+    R = PoolRun(mx, mn, ntasks + 3, gated, raising, nclients, qcap)
     R.base_nt = ntasks
     S = R.S
     nops = {c: (rnd.randint(3, 9) if c == 1 else rnd.randint(1, 3)) for c in range(1, nclients + 1)}
@@ -340,9 +349,9 @@ CLIENT_ENDS = {
     "fetch": {"call"}, "r1": {"release"}, "s1": {"is_set"}, "s2": {"ev_clear"}, "s3": {"qsize"}, "s4": None,
     "s5": {"unlock", "is_set_cs"}, "s5a": {"unlock", "thread_start"}, "s5b": {"unlock"},
     "s6": {"unlock", "is_set_cs", "ret"}, "s6a": {"unlock", "thread_start"}, "s6b": {"unlock"},
-    "e1": {"qput"}, "e2": {"unlock", "is_set_cs"}, "e2a": {"unlock", "thread_start"}, "e3": {"unlock"},
+    "e1": {"qput"}, "e1w": {"qput", "qput_full"}, "e1x": {"unlock"}, "e2": {"unlock", "is_set_cs"}, "e2a": {"unlock", "thread_start"}, "e3": {"unlock"},
     "j1": {"join_test"}, "j2": {"qjoin", "join_read"},
-    "p1": {"is_set"}, "p2": {"ev_set_stop"}, "p3": None, "p3b": {"qput", "unlock"}, "p4": None, "p5": None, "p6": None,
+    "p1": {"is_set"}, "p2": {"ev_set_stop"}, "p3": None, "p3b": {"qput", "unlock", "qput_full"}, "p4": None, "p5": None, "p6": None,
     "p6b": {"qget_nowait", "unlock"}, "p6c": {"task_done"}, "p7": {"is_set"}, "p8": {"join_test", "qjoin"},
 }
 WORKER_ENDS = {
@@ -355,7 +364,7 @@ WORKER_ENDS = {
 def replay_behaviour(beh, limit=400):
     """beh: {maxT, minT, nc, steps:[{who, pc (before), cop, timeout, st:{...}}]}  from MC_TPSim."""
     cfgb = beh["cfg"]
-    R = PoolRun(cfgb["maxT"], cfgb["minT"], cfgb["nt"], cfgb["gated"], [], cfgb["nc"])
+    R = PoolRun(cfgb["maxT"], cfgb["minT"], cfgb["nt"], cfgb["gated"], [], cfgb["nc"], cfgb.get("qcap", 0))
     S = R.S
     progs = {c: [] for c in range(1, cfgb["nc"] + 1)}
     for st in beh["steps"]:
@@ -376,6 +385,8 @@ def replay_behaviour(beh, limit=400):
     for k, st in enumerate(beh["steps"]):
         who, pc = st["who"], st["pc"]
         ends = (CLIENT_ENDS if who > 100 else WORKER_ENDS).get(pc, set())
+        if pc == "e1" and st["st"]["cpc"][who - 101] == "e1w":
+            ends = None                  # full bounded queue: the client acquires the lock and blocks in put()
         if ends is None:
             continue                     # silent spec step: nothing to advance
         t = S.by_idx(who)
@@ -400,7 +411,9 @@ def replay_behaviour(beh, limit=400):
                 break
             tmo = False
             if not S.is_enabled(t):
-                if t.can_timeout and (pc == "get" and st["act"] == "timeout" or pc == "j2"):
+                if t.can_timeout and (pc == "get" and st["act"] == "timeout" or pc == "j2"
+                                      or (pc == "e1w" and st["st"]["cpc"][who - 101] == "e1x")
+                                      or (pc == "p3b" and t.op[0] == "qput")):
                     tmo = True
                 else:
                     diverged = "step %d: spec moves %d from pc %s but the code is blocked on %s" % (k, who, pc, t.op[0])
